@@ -40,6 +40,9 @@ def main():
         for k, v in (case.get('cfg') or {}).items():
             if k == 'filter_class_tuple':
                 p.filter_class = tuple(v)
+            elif k == 'timezone_minutes':
+                from datetime import timezone, timedelta
+                p.timezone = None if v is None else timezone(timedelta(minutes=v))
             else:
                 setattr(p, k, v)
         table = None if case.get('table') is None else {int(k): v for k, v in case['table']}
